@@ -4,10 +4,7 @@
  *   - a gcc-compiled long double computation after the calls (x87 residue corrupts later results)
  *   - cc_f's result state (return value + every global slot) against ref_f's after the Nth repetition
  *   - %rsp / x87 depth at the statement-level probe inside the loop, for gn = 1 and gn = 1000
- *   - for conversion cases (vp_case.grid != 0): the same measurements once per operand VALUE of the class-boundary grid
- *     of the source type (gv = 0 .. n-1), so that every path inside a conversion sequence is executed
- * One line per case:  R <idx> <fields...>, for conversion cases followed by  V <idx> <n> | <fields> | ...   (parsed by
- * checks/c20.py)
+ * One line per case:  R <idx> <fields...>   (parsed by checks/c20.py)
  */
 #include <stdio.h>
 #include <string.h>
@@ -19,24 +16,13 @@ typedef struct L { long a[3]; } L;
   extern int P##gi[8]; extern long P##gl[8]; extern float P##gf[8]; extern double P##gd[8]; extern long double P##ge[8]; \
   extern int *P##gp[8]; extern S P##gs[8]; extern L P##gL[8]; extern int P##gc, P##gn, P##gna; \
   extern int P##ri; extern long P##rl; extern float P##rf; extern double P##rd; extern long double P##re; \
-  extern int *P##rp; extern S P##rs; extern L P##rL; void P##reset(void); long P##getbf(int); \
-  extern _Bool P##cvb[]; extern char P##cvc[]; extern signed char P##cvsc[]; extern unsigned char P##cvuc[]; \
-  extern short P##cvs[]; extern unsigned short P##cvus[]; extern int P##cvi[]; extern unsigned P##cvu[]; extern long P##cvl[]; \
-  extern unsigned long P##cvul[]; extern float P##cvf[]; extern double P##cvd[]; extern long double P##cve[]; \
-  extern _Bool P##crb; extern char P##crc; extern signed char P##crsc; extern unsigned char P##cruc; extern short P##crs; \
-  extern unsigned short P##crus; extern int P##cri; extern unsigned P##cru; extern long P##crl; extern unsigned long P##crul; \
-  extern float P##crf; extern double P##crd; extern long double P##cre; extern int P##gv;
+  extern int *P##rp; extern S P##rs; extern L P##rL; void P##reset(void); long P##getbf(int);
 DECL(cc_)
 DECL(ref_)
 
-struct vp_case { int (*cc)(void); int (*ref)(void); int grid; };     /* grid: 0 none, 1 integer grid, 2 floating grid */
+struct vp_case { int (*cc)(void); int (*ref)(void); };
 extern struct vp_case vp_cases[];
 extern int vp_ncases;
-/* operand value grids (generated by checks/c20.py into the driver source): integer bit patterns, long double values */
-extern const long vp_igrid[];
-extern const long double vp_fgrid[];
-extern const int vp_ni, vp_nf;
-#define NV 48
 
 extern unsigned long vp_pcount, vp_rsp_first, vp_rsp_last, vp_rsp_min, vp_rsp_max;
 extern int vp_x87_first, vp_x87_max, vp_x87_last;
@@ -81,8 +67,7 @@ static unsigned cmp_state(void) {
     if (!feq(cc_gf[j], ref_gf[j])) m |= 4;
     if (!feq(cc_gd[j], ref_gd[j])) m |= 8;
     if (!ldeq(cc_ge[j], ref_ge[j])) m |= 16;
-    if (!cc_gp[j] || !ref_gp[j]) { if (cc_gp[j] || ref_gp[j]) m |= 32; }
-    else if (cc_gp[j] - cc_gi != ref_gp[j] - ref_gi) m |= 32;
+    if (cc_gp[j] - cc_gi != ref_gp[j] - ref_gi) m |= 32;
     if (cc_gs[j].a != ref_gs[j].a || cc_gs[j].b != ref_gs[j].b || cc_gs[j].c != ref_gs[j].c) m |= 64;
     if (memcmp(&cc_gL[j], &ref_gL[j], sizeof(L))) m |= 128;
   }
@@ -95,26 +80,7 @@ static unsigned cmp_state(void) {
   if (cc_rp - cc_gi != ref_rp - ref_gi) m |= 1 << 14;
   if (cc_rs.a != ref_rs.a || cc_rs.b != ref_rs.b || cc_rs.c != ref_rs.c) m |= 1 << 15;
   if (memcmp(&cc_rL, &ref_rL, sizeof(L))) m |= 1 << 16;
-  if (cc_crb != ref_crb || cc_crc != ref_crc || cc_crsc != ref_crsc || cc_cruc != ref_cruc || cc_crs != ref_crs ||
-      cc_crus != ref_crus || cc_cri != ref_cri || cc_cru != ref_cru || cc_crl != ref_crl || cc_crul != ref_crul ||
-      !feq(cc_crf, ref_crf) || !feq(cc_crd, ref_crd) || !ldeq(cc_cre, ref_cre)) m |= 1 << 17;
   return m;
-}
-
-/* the conversion operands: every typed table holds the grid value converted by gcc (identical for both twins) */
-static void fill_grids(void) {
-  if (vp_ni > NV || vp_nf > NV) { fprintf(stderr, "grid larger than NV\n"); exit(3); }
-  for (int j = 0; j < vp_ni; j++) {
-    long v = vp_igrid[j];
-    cc_cvb[j] = ref_cvb[j] = v != 0; cc_cvc[j] = ref_cvc[j] = (char)v; cc_cvsc[j] = ref_cvsc[j] = (signed char)v;
-    cc_cvuc[j] = ref_cvuc[j] = (unsigned char)v; cc_cvs[j] = ref_cvs[j] = (short)v; cc_cvus[j] = ref_cvus[j] = (unsigned short)v;
-    cc_cvi[j] = ref_cvi[j] = (int)v; cc_cvu[j] = ref_cvu[j] = (unsigned)v; cc_cvl[j] = ref_cvl[j] = v;
-    cc_cvul[j] = ref_cvul[j] = (unsigned long)v;
-  }
-  for (int j = 0; j < vp_nf; j++) {
-    long double v = vp_fgrid[j];
-    cc_cvf[j] = ref_cvf[j] = (float)v; cc_cvd[j] = ref_cvd[j] = (double)v; cc_cve[j] = ref_cve[j] = v;
-  }
 }
 
 static void probe_reset(void) {
@@ -126,7 +92,6 @@ int main(int argc, char **argv) {
   static const int NS[3] = {1, 2, 9};
   int lo = 0, hi = vp_ncases;
   if (argc > 1) { lo = atoi(argv[1]); hi = lo + 1; }
-  fill_grids();
   for (int ci = lo; ci < hi; ci++) {
     struct vp_case *c = &vp_cases[ci];
     printf("R %d", ci);
@@ -173,32 +138,6 @@ int main(int argc, char **argv) {
              depth_of(tw1) - depth_of(tw0), cc_gna);
     }
     printf("\n");
-    if (c->grid) {
-      /* one call (loop count 1) per operand value: x87 depth delta, TOP delta, later-long-double ok, result equal to the
-         gcc twin's (return value and state), rsp delta across the call, max x87 depth at the probe */
-      int nv = c->grid == 1 ? vp_ni : vp_nf;
-      printf("V %d %d", ci, nv);
-      for (int v = 0; v < nv; v++) {
-        unsigned tw0, tw1, sw0, sw1;
-        cc_reset(); ref_reset();
-        cc_gc = ref_gc = 0; cc_gn = ref_gn = 1; cc_gv = ref_gv = v;
-        vp_fninit();
-        probe_reset();
-        sw0 = vp_x87(&tw0);
-        int rc = (int)vp_call(c->cc);
-        long rspd = vp_rspdelta;
-        sw1 = vp_x87(&tw1);
-        int ldok = ldcheck();
-        int pmax = vp_x87_max;
-        vp_fninit();
-        int rr = c->ref();
-        vp_fninit();
-        printf(" | %d %d %d %d %ld %d", depth_of(tw1) - depth_of(tw0), top_of(sw1) - top_of(sw0), ldok,
-               rc == rr && cmp_state() == 0, rspd, pmax);
-      }
-      cc_gv = ref_gv = 0;
-      printf("\n");
-    }
     fflush(stdout);
   }
   return 0;
